@@ -48,28 +48,30 @@ type tok struct {
 	s string
 }
 
-func lexExpr(s string) ([]tok, error) {
+func lexExpr(src string) ([]tok, error) {
+	// identifiers may contain non-ASCII letters (Go allows them): lex over runes
+	s := []rune(src)
 	var ts []tok
 	i := 0
 	ops := []string{"<==>", "==>", "&&", "||", "==", "!=", "<=", ">=", "::", "<<", ">>", "..", "+", "-", "*", "/", "%", "(", ")", "[", "]", ",", ":", "?", ".", "<", ">", "!", "&", "|", "^"}
 	for i < len(s) {
-		c := rune(s[i])
+		c := s[i]
 		switch {
 		case unicode.IsSpace(c):
 			i++
 		case unicode.IsLetter(c) || c == '_':
 			j := i
-			for j < len(s) && (unicode.IsLetter(rune(s[j])) || unicode.IsDigit(rune(s[j])) || s[j] == '_' || s[j] == '$') {
+			for j < len(s) && (unicode.IsLetter(s[j]) || unicode.IsDigit(s[j]) || s[j] == '_' || s[j] == '$') {
 				j++
 			}
-			ts = append(ts, tok{"id", s[i:j]})
+			ts = append(ts, tok{"id", string(s[i:j])})
 			i = j
 		case unicode.IsDigit(c):
 			j := i
-			for j < len(s) && (unicode.IsDigit(rune(s[j])) || s[j] == 'x' || (s[j] >= 'a' && s[j] <= 'f') || (s[j] >= 'A' && s[j] <= 'F')) {
+			for j < len(s) && (unicode.IsDigit(s[j]) || s[j] == 'x' || (s[j] >= 'a' && s[j] <= 'f') || (s[j] >= 'A' && s[j] <= 'F')) {
 				j++
 			}
-			ts = append(ts, tok{"int", s[i:j]})
+			ts = append(ts, tok{"int", string(s[i:j])})
 			i = j
 		case c == '"':
 			j := i + 1
@@ -79,12 +81,12 @@ func lexExpr(s string) ([]tok, error) {
 			if j >= len(s) {
 				return nil, fmt.Errorf("unterminated string")
 			}
-			ts = append(ts, tok{"str", s[i+1 : j]})
+			ts = append(ts, tok{"str", string(s[i+1 : j])})
 			i = j + 1
 		default:
 			found := false
 			for _, o := range ops {
-				if strings.HasPrefix(s[i:], o) {
+				if strings.HasPrefix(string(s[i:min(i+4, len(s))]), o) {
 					ts = append(ts, tok{"op", o})
 					i += len(o)
 					found = true
@@ -92,7 +94,7 @@ func lexExpr(s string) ([]tok, error) {
 				}
 			}
 			if !found {
-				return nil, fmt.Errorf("bad character %q in %q", c, s)
+				return nil, fmt.Errorf("bad character %q in %q", c, src)
 			}
 		}
 	}
